@@ -107,6 +107,7 @@ class Contract:
         self.pre_ghost = []
         self.post_ghost = []
         self.classes = None       # verify once per concrete class of self
+        self.lets = []            # ghost definitions (name, expr), evaluated in the pre-state
         self.options = {}
 
     @property
@@ -124,6 +125,7 @@ class LoopSpec:
         self.head_ghost = []
         self.back_ghost = []
         self.exit_ghost = []
+        self.lets = []
 
 
 class Lemma:
@@ -236,6 +238,9 @@ class Specs:
                 continue
             if isinstance(st, ast.Pass):
                 continue
+            if isinstance(st, ast.Assign) and len(st.targets) == 1 and isinstance(st.targets[0], ast.Name):
+                c.lets.append((st.targets[0].id, st.value))
+                continue
             if not (isinstance(st, ast.Expr) and isinstance(st.value, ast.Call) and isinstance(st.value.func, ast.Name)):
                 raise ValueError('contract %s: unsupported statement %s' % (c.target, ast.unparse(st)))
             call = st.value
@@ -264,9 +269,17 @@ class Specs:
         self.contracts.setdefault(c.target, []).append(c)
 
     def _load_loop(self, node, args, kw):
-        l = LoopSpec(ast.literal_eval(args[0]), ast.literal_eval(args[1]), node)
+        targets = ast.literal_eval(args[0])
+        if isinstance(targets, list):
+            for t in targets:
+                self._load_loop(node, [ast.Constant(t), args[1]], kw)
+            return
+        l = LoopSpec(targets, ast.literal_eval(args[1]), node)
         for st in node.body:
             if isinstance(st, ast.Expr) and isinstance(st.value, ast.Constant):
+                continue
+            if isinstance(st, ast.Assign) and len(st.targets) == 1 and isinstance(st.targets[0], ast.Name):
+                l.lets.append((st.targets[0].id, st.value))
                 continue
             call = st.value
             fn = call.func.id
